@@ -440,6 +440,11 @@ func oddities() []string {
 	for _, v := range []string{`1`, `"s"`, `null`, `true`, `[1,{"a":null}]`, `{"a":{"b":[]}}`, `1.0`, `1e2`} {
 		out = append(out, `{"x":`+v+`}`, `{"type":"integer","x-y":`+v+`,"Type":`+v+`}`, `{"unknown":`+v+`,"properties":{"a":{"unknown2":`+v+`}}}`)
 	}
+	// case variants of camelCase keywords, alone in their object (no other unknown key) and next to the real keyword
+	for _, kv := range []string{`"minlength":3`, `"MinLength":3`, `"MINLENGTH":1`, `"additionalproperties":false`, `"AdditionalProperties":false`, `"UniqueItems":true`, `"uniqueitems":true`,
+		`"exclusiveminimum":1`, `"ExclusiveMaximum":0`, `"$DynamicRef":"#nope"`, `"$dynamicref":"#nope"`, `"minitems":5`, `"maxProperties ":0`, `"propertynames":false`, `"prefixitems":[false]`, `"dependentrequired":{"a":["zz"]}`, `"readonly":"yes"`, `"contentschema":1`, `"multipleof":7`, `"patternproperties":{"(":1}`} {
+		out = append(out, `{`+kv+`}`, `{"type":"string",`+kv+`}`, `{"items":{`+kv+`}}`)
+	}
 	out = append(out, `{"items":[{"type":"integer"},true,false]}`, `{"items":[{}]}`, `{"$schema":"http://json-schema.org/draft-07/schema#","items":[{"type":"integer"}],"additionalItems":false}`,
 		`{"$schema":"http://json-schema.org/draft-07/schema#","dependencies":{"a":["b"],"c":{"required":["d"]}}}`)
 	return out
